@@ -165,6 +165,9 @@ func (b *builder) styleEl() *node {
 // leaves returns the content leaves in document order, skipping subtrees for which skip is true.
 func leaves(n *node, skip func(*node) bool, out *[]*node) {
 	if n.tag == "" {
+		if n.tok != "" { // bare text carrying a token of its own (own text of a container after a block child)
+			*out = append(*out, n)
+		}
 		return
 	}
 	if skip != nil && skip(n) {
